@@ -357,13 +357,23 @@ impl crate::traits::Transaction for SqliteStore {
             panic!("can't have no transaction without dropping permit first")
         };
 
-        let result = tx.rollback().await.map_err(SqliteError::Sqlite);
+        // Finish the rollback in a task of its own: if the caller's future gets dropped while the
+        // rollback is still in flight the permit must not be released before SQLite is done with
+        // this transaction, otherwise the next transaction would run concurrently to this one.
+        let handle = tokio::spawn(async move {
+            let result = tx.rollback().await.map_err(SqliteError::Sqlite);
 
-        // Always drop the permit, both on successful rollback and error. This will allow other
-        // processes now to begin a new transaction and acquire the permit.
-        permit.mark_committed_and_drop();
+            // Always drop the permit, both on successful rollback and error. This will allow other
+            // processes now to begin a new transaction and acquire the permit.
+            permit.mark_committed_and_drop();
 
-        result
+            result
+        });
+
+        match handle.await {
+            Ok(result) => result,
+            Err(err) => std::panic::resume_unwind(err.into_panic()),
+        }
     }
 
     /// Commits the transaction.
@@ -375,13 +385,23 @@ impl crate::traits::Transaction for SqliteStore {
             panic!("can't have no transaction without dropping permit first")
         };
 
-        let result = tx.commit().await.map_err(SqliteError::Sqlite);
+        // Finish the commit in a task of its own: if the caller's future gets dropped while the
+        // commit is still in flight the permit must not be released before SQLite is done with
+        // this transaction, otherwise the next transaction would run concurrently to this one.
+        let handle = tokio::spawn(async move {
+            let result = tx.commit().await.map_err(SqliteError::Sqlite);
 
-        // Always drop the permit, both on successful commit and error. This will allow other
-        // processes now to begin a new transaction and acquire the permit.
-        permit.mark_committed_and_drop();
+            // Always drop the permit, both on successful commit and error. This will allow other
+            // processes now to begin a new transaction and acquire the permit.
+            permit.mark_committed_and_drop();
 
-        result
+            result
+        });
+
+        match handle.await {
+            Ok(result) => result,
+            Err(err) => std::panic::resume_unwind(err.into_panic()),
+        }
     }
 }
 
